@@ -37,7 +37,16 @@ RULE = ("random kerning fonts: repertoire drawn from Latin, Cyrillic, Greek, Ara
         "compiled ScriptList, those the writer registered, DFLT, and one tag registered nowhere) and every ordered glyph pair, against the "
         "table the independent interpreter gpos.pair_adjust reads from the COMPILED font: any difference is a correspondence failure. The "
         "driver also evaluates the decidable hypothesis bundle `e2eHyp` of C05_end_to_end for every (script, tag, g1, g2) and reports how "
-        "many triples it covers (evidence: main_theorem_hypotheses; info.e2e_met) - and, redundantly, that the conclusion holds on them.")
+        "many triples it covers (evidence: main_theorem_hypotheses; info.e2e_met) - and, redundantly, that the conclusion holds on them. "
+        "Fourth stream (tag reuse, max(40, n/5) more fonts, ops kern + apply as in stream 1): ONE KernFeatureWriter instance first compiles "
+        "another generated font and then the font under test (a caller passing one featureWriters=[...] list to several compiles). The "
+        "font under test mostly has Arabic letters plus glyphs of multi-script code points (Script_Extensions with several scripts and "
+        "no Zyyy/Zinh: tatweel U+0640, U+061F, U+060C, U+061B, harakat, Arabic-Indic digits) kerned against each other; the first font "
+        "mostly has no right-to-left letters (60 %) or no script-specific glyph at all (15 %) and shares the second font's neutral / "
+        "multi-script glyphs. The same UFO-semantics predicate and model comparison are applied to the SECOND font, and additionally the "
+        "glyph classification (ctx.glyphScripts) and emitted program of the reused instance must equal those of a fresh instance "
+        "(correspondence). Tags reuse:* show the distribution (first font ltr-only / no-script-glyphs / has-rtl-letters; number of shared "
+        "multi-script glyphs; an RTL pair of two shared multi-script glyphs present).")
 ASSUMED = ["Unicode script / script-extension / bidi data and the GSUB closure are inputs (the model takes the implementation's classification; "
            "the property predicate uses an independent one computed from the stdlib unicodedata and the generated GSUB rules)",
            "feaLib compiles the emitted statements as written (specific pairs before class pairs; first definition wins) - since op apply: "
@@ -52,6 +61,9 @@ ASSUMED = ["Unicode script / script-extension / bidi data and the GSUB closure a
            "names follow from script names of the ISO-15924 shape Xxxx (scriptsOK; namesOK_of_wf over the character-list lookupName), and cellClean = the pair is outside the three known bidi-cell shapes (stated on the determining cell only)",
            "kernFeatureWriter2 (the second shipped writer) is not modelled: it is compared end-to-end with writer 1 on single-direction fonts "
            "(equality of the applied adjustments, evaluated by the Lean driver)",
+           "history independence of a writer instance (what it emits for a font does not depend on the fonts it compiled before) is not a "
+           "Lean theorem - the model is a pure function of one font's context, which the harness reads from the running writer -: it is "
+           "observed by stream reuse (predicate on the second font's compiled GPOS + equality with a fresh instance), one preceding font only",
            "wfKern (valid UFO 3 groups, distinct group names and kerning keys, no glyph named like a kerning group) for the UFO-value theorem; "
            "glyph pairs both in the glyph set"]
 
@@ -69,6 +81,11 @@ POOL = {
     # cedillacomb / lowlinecomb: Script_Extensions == {Zinh} exactly (inherited, no script of their own)
     "mark": [("acutecomb", 0x301), ("fatha-ar", 0x64E), ("cedillacomb", 0x327), ("lowlinecomb", 0x332)],
 }
+# code points whose Script_Extensions hold SEVERAL scripts and neither Zyyy nor Zinh (Script property Common): how the writer
+# classifies them depends on the font's known scripts (knownScriptsPerCodepoint = scx & (knownScripts | DFLT_SCRIPTS)); used by the
+# "reuse" stream only (stream 1 / agree2 draw from the families above exactly as before)
+MULTI = [("tatweel-ar", 0x640), ("question-ar", 0x61F), ("comma-ar", 0x60C), ("semicolon-ar", 0x61B)]
+SHARED_FAMS = ("digit", "ardigit", "punct", "mark")
 MARKNAMES = ("acutecomb", "fatha-ar", "cedillacomb", "lowlinecomb")
 LANGSYS = {"latn": "latn", "cyrl": "cyrl", "grek": "grek", "arab": "arab", "hebr": "hebr", "deva": "dev2", "kana": "kana"}
 
@@ -182,10 +199,64 @@ def gen_chain(rng):
             "q": rng.choice([1, 1, 5]), "ignoreMarks": True, "lib": rng.choice(["ufoLib2", "defcon"]), "markWidth": 0}
 
 
+def gen_reuse(rng, mode):
+    """stream "reuse": ONE KernFeatureWriter instance compiles a first font and then the font under test (as a caller does who
+    passes one featureWriters=[...] list to the compiles of a family).  The property is about the second font alone: whatever
+    the writer instance did before, the second font's kerning must satisfy it - and (correspondence) the emitted program must be
+    the one a fresh writer emits.  Second font: a stream-1 font, mostly with Arabic letters plus glyphs of multi-script code points
+    (MULTI, harakat, Arabic-Indic digits) kerned against each other; first font: another stream-1 font, mostly WITHOUT right-to-left
+    letters (or with no script-specific glyph at all), that shares the second font's neutral / multi-script glyphs."""
+    second = next(gen1(rng, 1, mode))
+    if rng.random() < 0.75:
+        have = {g[0] for g in second["glyphs"]}
+        if not have & {g[0] for g in POOL["arab"]}:
+            second["glyphs"] += [list(g) for g in rng.sample(POOL["arab"], rng.choice([1, 2]))]
+        second["glyphs"] += [list(g) for g in rng.sample(MULTI, rng.choice([2, 2, 3, 4]))]
+        have = {g[0] for g in second["glyphs"]}
+        multi = [g[0] for g in MULTI if g[0] in have] + [x for x in ("fatha-ar",) if x in have]
+        seen = {(k[0], k[1]) for k in second["kerning"]}
+        for _ in range(rng.choice([1, 2, 3, 4])):
+            k = (rng.choice(multi), rng.choice(multi + [g[0] for g in POOL["arab"] if g[0] in have]))
+            if rng.random() < 0.3:
+                k = (k[1], k[0])
+            if k not in seen:
+                seen.add(k); second["kerning"].append([k[0], k[1], rng.choice([-30, 22, -10, 15, 40, -50])])
+    first = next(gen1(rng, 1, mode))
+    r = rng.random()
+    if r < 0.6:       # no right-to-left letters in the first font
+        drop = {g[0] for f in RTL_FAMS for g in POOL[f]}
+    elif r < 0.75:    # no script-specific glyph at all: the first font has no known scripts
+        drop = {g[0] for f in LANGSYS for g in POOL[f]}
+        first["langsys"] = []
+    else:
+        drop = set()
+    first["glyphs"] = [g for g in first["glyphs"] if g[0] not in drop]
+    first["alts"] = [a for a in first["alts"] if a[1] not in drop]
+    fam_shared = {g[0] for f in SHARED_FAMS for g in POOL[f]} | {g[0] for g in MULTI}
+    have = {g[0] for g in first["glyphs"]}
+    for g in second["glyphs"]:
+        if g[0] in fam_shared and g[0] not in have and rng.random() < 0.85:
+            first["glyphs"].append(list(g)); have.add(g[0])
+    if not first["glyphs"]:
+        first["glyphs"] = [list(POOL["punct"][0])]
+    first["marks"] = [g[0] for g in first["glyphs"] if g[0] in MARKNAMES]
+    first["gdef"] = first["gdef"] and bool(first["marks"])
+    if len(first["glyphs"]) >= 2 and rng.random() < 0.7:
+        a, b = rng.sample([g[0] for g in first["glyphs"]], 2)
+        if not any(k[0] == a and k[1] == b for k in first["kerning"]):
+            first["kerning"].append([a, b, -25])
+    second["stream"] = "reuse"
+    second["first"] = first
+    return second
+
+
 def gen(rng, n, mode):
     for _ in range(max(20, n // 6)):
         yield gen_chain(rng)
     yield from _gen(rng, n, mode)
+    # last, so that the streams above see exactly the random numbers they saw before this stream existed
+    for _ in range(max(40, n // 5)):
+        yield gen_reuse(rng, mode)
 
 
 def _gen(rng, n, mode):
@@ -358,9 +429,25 @@ def run(case):
             return r
 
     obs = {"err": None}
+    writer = Rec(quantization=case["q"], ignoreMarks=case["ignoreMarks"])
+    fresh = None
+    if case.get("first"):
+        # what a FRESH writer instance emits for this font (correspondence: the reused writer must emit the same program)
+        try:
+            ufo2ft.compileTTF(build(fd, case["lib"]), useProductionNames=False,
+                              featureWriters=[Rec(quantization=case["q"], ignoreMarks=case["ignoreMarks"])])
+            fresh = [rec.get("ctx", {}).get("glyphScripts", []), rec.get("program", {"lookups": [], "kern": [], "dist": []})]
+        except Exception as e:
+            fresh = ["err", type(e).__name__]
+        rec.clear()
+        # the same writer instance compiles the first font ... (an error there is the first font's business)
+        try:
+            ufo2ft.compileTTF(build(_font_desc(case["first"]), case["first"]["lib"]), useProductionNames=False, featureWriters=[writer])
+        except Exception:
+            pass
+        rec.clear()
     try:
-        tt = ufo2ft.compileTTF(font, useProductionNames=False,
-                               featureWriters=[Rec(quantization=case["q"], ignoreMarks=case["ignoreMarks"])])
+        tt = ufo2ft.compileTTF(font, useProductionNames=False, featureWriters=[writer])
         buf = io.BytesIO(); tt.save(buf); buf.seek(0)
         tt = TTFont(buf)
     except Exception as e:
@@ -414,12 +501,25 @@ def run(case):
                 "ignoreMarks": case["ignoreMarks"],
                 "indep": {"scripts": iscripts, "bidi": ibidi, "dir": idir}, "tagScript": tagScript})
     obs["program"] = rec["program"]; obs["applied"] = applied
+    if fresh is not None:
+        obs["fresh"] = fresh
+        obs["reusedGlyphScripts"] = rec["ctx"]["glyphScripts"]
     dirs = {d for _, d in idir}
     depth2 = any(a.startswith("public.kern1.") and b.startswith("public.kern2.") for a, b, _ in case["kerning"]) and \
         any(not a.startswith("public.") or not b.startswith("public.") for a, b, _ in case["kerning"])
     tags = [case["lib"], "q:%s" % case["q"], "ignoreMarks:%s" % case["ignoreMarks"], "langsys:%s" % bool(case["langsys"]),
             "gdef:%s" % case["gdef"], "err:" + str(obs.get("err")), "scripts:%d" % len([s for s in scripts if s not in ("Zyyy", "Zinh")])] + \
         (["bidir"] if len(dirs) > 1 else []) + (["skipped"] if rec.get("skipped") else []) + (["alts"] if case["alts"] else [])
+    if case.get("first"):
+        fnames = {g[0] for g in case["first"]["glyphs"]}
+        sc_ = dict(iscripts)
+        multi = [g for g in names if g in fnames and len(sc_[g]) > 1 and not set(sc_[g]) & {"Zyyy", "Zinh"}]
+        f_rtl = any(g[0] in fnames for f in RTL_FAMS for g in POOL[f])
+        f_any = any(g[0] in fnames for f in LANGSYS for g in POOL[f])
+        both = any(k[0] in multi and k[1] in multi and k[2] for k in case["kerning"])
+        tags += ["reuse", "reuse:first-font-" + ("has-rtl-letters" if f_rtl else ("ltr-only" if f_any else "no-script-glyphs")),
+                 "reuse:shared-multiscript-glyphs:%d" % min(len(multi), 3)] + \
+            (["reuse:rtl-pair-of-shared-multiscript-glyphs"] if both and "RTL" in dirs else [])
     reqs = [{"op": "kern", "in": inp, "obs": obs, "tags": tags,
              "nontrivial": (len(dirs) > 1 or depth2) and any(e for _, e in applied)}]
     if obs["err"] is None:
@@ -482,6 +582,10 @@ def agree(req, rep):
         # (the second conjunct can never fail: C05_end_to_end is a theorem; it only guards the driver's own evaluation of it)
         return m == o["table"] and not ((rep.get("info") or {}).get("e2e_bad"))
     p = o["program"]
+    if "fresh" in o and o["fresh"] != [o["reusedGlyphScripts"], p]:
+        # stream "reuse": the writer instance that compiled another font before must classify the glyphs and emit the program
+        # exactly as a fresh instance does
+        return False
     return m["lookups"] == p["lookups"] and m["kern"] == p["kern"] and m["dist"] == p["dist"]
 
 
@@ -500,6 +604,20 @@ def shrink(case):
         c = dict(case); c["alts"] = []; yield c
     if case["langsys"]:
         c = dict(case); c["langsys"] = []; yield c
+    f = case.get("first")
+    if f:
+        for key in ("kerning", "groups", "alts", "langsys"):
+            if f[key]:
+                c = dict(case); c["first"] = dict(f); c["first"][key] = []; yield c
+        for i in range(len(f["glyphs"])):
+            if len(f["glyphs"]) > 1:
+                nm = f["glyphs"][i][0]
+                c = dict(case); ff = dict(f); c["first"] = ff
+                ff["glyphs"] = f["glyphs"][:i] + f["glyphs"][i + 1:]
+                ff["alts"] = [a for a in f["alts"] if a[1] != nm]
+                ff["marks"] = [m for m in f["marks"] if m != nm]
+                ff["gdef"] = f["gdef"] and bool(ff["marks"])
+                yield c
 
 
 def classify_failure(res):
@@ -662,9 +780,15 @@ LEVEL_TEXT = ("Proved (Lean, all inputs): END-TO-END C05_end_to_end - for well-f
               "same splitKerning bucket (same lookup); "
               "_registerLookups: each script tag gets Common + Inherited + own lookups, DFLT gets Common + all LTR (else RTL), each once. "
               "The full executable model of the kern writer is tied to the code structurally on every run, the UFO-semantics predicate is "
-              "evaluated on the compiled GPOS for every glyph pair, and the two shipped writers are compared on single-direction fonts.")
+              "evaluated on the compiled GPOS for every glyph pair, and the two shipped writers are compared on single-direction fonts. "
+              "Observed only (no theorem): a writer instance that compiled another font before emits, for the font under test, the program "
+              "of a fresh instance, and the compiled GPOS of that second font satisfies the same UFO-semantics predicate (stream reuse).")
 LEVEL_NOTE = ("Trusted: Lean kernel + standard axioms; correspondence harness incl. the independent GPOS interpreter; Unicode data as input; "
               "the end-to-end theorem is stated over the Lean GPOS application semantics (Spec/C05Apply.lean), which is itself tied to the "
               "compiled font by op apply (trusted: that tie is differential); lookup flags are assumed irrelevant for adjacent pairs; the "
               "three bidi-cell shapes are excluded by the hypothesis cellClean and stay known findings; writer 2 is compared end-to-end only and differs from writer 1 in right-to-left "
-              "fonts with digits or Arabic marks (known finding).")
+              "fonts with digits or Arabic marks (known finding). State carried by a writer instance from one compile to the next (stream reuse) is "
+              "covered by observation only: the Lean model has no notion of a writer instance outliving a font; the predicate (holds, evaluated "
+              "by the Lean driver against the independent Unicode classification) is applied to the second font compiled by a reused "
+              "instance, and its classification + program are compared with a fresh instance's; sequences longer than two fonts and reuse "
+              "of kernFeatureWriter2 instances are not generated.")
